@@ -19,8 +19,10 @@
 EXTENDS OptionGuardP, TLC, Json
 
 CONSTANTS Langs,       \* subset of {"c", "cpp"}
-          BaseSet,     \* "families": documented families; "commons": families x every value of the family-independent options
+          BaseSet,     \* cpp bases - "core": 7 representatives; "families": all 14 documented families; "commons": families x every
+                       \* value of the family-independent options (c bases: always all 48 vectors)
           MaxMut,      \* single-side option changes per behaviour (1: all ordered pairs differing in exactly one option)
+          MinMut,      \* generation starts only after this many single-side changes (0; > 0 steers simulation to multi-option pairs)
           MaxBoth,     \* both-side option changes per behaviour (identical pairs of the neighbours of the bases)
           Star,        \* TRUE: a single-side change is made only to an unchanged base pair (the pairs form a star around each base)
           HashBits     \* 32 = CRC-32 as implemented; 1 = a one-bit hash (negative control: collisions must be found)
@@ -40,8 +42,14 @@ CppFamilies ==
     {Over(d, p) : p \in FamilyProfiles}
     \cup {Over(d, [std |-> S(T_cpp17pmr)]), Over(d, [std |-> S(T_cetl1417)])}
 
+CppCore ==          \* one representative per family and per way of naming it (quick conformance runs)
+    LET d == Default("cpp") IN
+    {d, Over(d, [variable_array_type_include |-> S(T_incVecQ)]), Over(d, [std |-> S(T_cpp20)]),
+     Over(d, GroupPmr), Over(d, [std |-> S(T_cpp17pmr)]), Over(d, GroupCetl), Over(d, [std |-> S(T_cetl1417)])}
+
 Bases(l) ==
     IF l = "c" THEN AllVectors("c", KeySet("c"), Default("c"))
+    ELSE IF BaseSet = "core" THEN CppCore
     ELSE IF BaseSet = "families" THEN CppFamilies
     ELSE UNION {AllVectors("cpp", CommonKeys("cpp"), f) : f \in CppFamilies}
 
@@ -79,8 +87,8 @@ Validated(v) ==      \* _validate_language_options: update with the short-hand g
     LET e == IF IsShorthand(lang, v) THEN Over(v, Group(v["std"].v)) ELSE v
         bad == lang = "cpp" /\ e["ctor_convention"] # S(T_default) /\ e["allocator_type"] = S(T_empty)
     IN [ok |-> ~bad, o |-> e]
-ValidateTypes   == ea = None /\ ea' = Some(Validated(a)) /\ UNCHANGED <<lang, a, b, nmut, nboth, eb, defs, asrt, out, tab>>
-ValidateSupport == eb = None /\ eb' = Some(Validated(b)) /\ UNCHANGED <<lang, a, b, nmut, nboth, ea, defs, asrt, out, tab>>
+ValidateTypes   == ea = None /\ nmut >= MinMut /\ ea' = Some(Validated(a)) /\ UNCHANGED <<lang, a, b, nmut, nboth, eb, defs, asrt, out, tab>>
+ValidateSupport == eb = None /\ nmut >= MinMut /\ eb' = Some(Validated(b)) /\ UNCHANGED <<lang, a, b, nmut, nboth, ea, defs, asrt, out, tab>>
 
 GenSupport ==
     /\ IsSet(eb) /\ eb[1].ok /\ defs = None
